@@ -303,7 +303,12 @@ def make_rel(cfg_in):
         if bad:
             p = (cfg['props'] or ['C10'])[0]
             raise Violation('%s/%s: %s' % (p, rel, bad), detail(p, rel, bad, (s, s2)))
-        return {'nontrivial': len(ra) > 0, 'tags': ['rows=%d' % len(ra)], 'sample': None}
+        tags = ['rows=%d' % len(ra)]
+        from . import tracecheck
+        if tracecheck.maybe_validate(c, 'h_rel', detail((cfg['props'] or ['C10'])[0], 'trace-validation', '-', (s, s2)),
+                                     cfg.get('rel_validate_every', 400), (cfg['props'] or ['C10'])[0]):
+            tags.append('validated')
+        return {'nontrivial': len(ra) > 0, 'tags': tags, 'sample': None}
 
     return h
 
